@@ -111,13 +111,14 @@ def run(m, rep, tier):
     # ---- X8: a search bound that steps below the first element ---------------------------------
     # `upper = mid - 1` reaches "before index 0" when mid is 0: with signed bounds that is -1 and ends the loop; with
     # unsigned bounds it wraps to SIZE_MAX, the loop goes on and reads far outside the array
-    x8 = rep.rule('X8', 'binary search: a bound stepped down by one either is compared as a signed value or is stepped only where it is known to be non-zero', floor=1)
-    f = m.pfn('cstl_raw_array_search')
-    if f is None:
-        x8.undecided('cstl_raw_array_search', 'not in the model')
-    else:
-        from ..ir import unit_step
-        from ..facts import phi_leaves
+    x8 = rep.rule('X8', 'search / reverse: a bound stepped down by one either is compared as a signed value or is stepped only where it is known to be non-zero', floor=2)
+    from ..ir import unit_step
+    from ..facts import phi_leaves
+    for _nm in ('cstl_raw_array_search', 'cstl_raw_array_reverse'):
+        f = m.pfn(_nm)
+        if f is None:
+            x8.undecided(_nm, 'not in the model')
+            continue
         pv = Prover(f)
         nfound, bad = 0, []
         for c in f.all_insts():
@@ -136,16 +137,43 @@ def run(m, rep, tier):
                     nfound += 1
                     if c.pred in ('slt', 'sle', 'sgt', 'sge'):
                         continue
-                    if c.pred in ('ult', 'ule', 'ugt', 'uge') and not (pv.prove_at(('ne', base, '#0'), vi) or pv.prove_at(('ult', '#0', base), vi)):
+                    # non-zero: tested directly, or something is known to be below it
+                    nz = pv.prove_at(('ne', base, '#0'), vi) or pv.prove_at(('ult', '#0', base), vi) or \
+                        any(op == 'ult' and y == base for (op, x, y) in pv.facts_at(vi))
+                    if c.pred in ('ult', 'ule', 'ugt', 'uge') and not nz:
                         bad.append('the bound %s is set to %s - 1 at %s and compared as an unsigned value at %s, but nothing establishes %s != 0 there: '
-                                   'searching for something smaller than every element wraps the bound to SIZE_MAX and the next probe lies outside the array'
+                                   'for an empty range (or a probe below every element) the bound wraps to SIZE_MAX and the loop runs outside the array'
                                    % (f.vname(P.ref), f.vname(base), vi.loc(), c.loc(), f.vname(base)))
         if nfound == 0:
-            x8.ok('cstl_raw_array_search', 'NOT DECIDED: no bound that is stepped down by one and compared in the loop condition (half-open formulation?)', floc(m, f))
+            x8.ok(_nm, 'NOT DECIDED: no bound that is stepped down by one and compared in the loop condition (half-open / cursor formulation?)', floc(m, f))
         elif bad:
-            x8.violation('cstl_raw_array_search', '; '.join(sorted(set(bad))[:2]), floc(m, f), {})
+            x8.violation(_nm, '; '.join(sorted(set(bad))[:2]), floc(m, f), {})
         else:
-            x8.ok('cstl_raw_array_search', '%d stepped-down bound(s): signed comparison or non-zero before the step' % nfound, floc(m, f))
+            x8.ok(_nm, '%d stepped-down bound(s): signed comparison or non-zero before the step' % nfound, floc(m, f))
+
+    # ---- X9: elements are exchanged through the caller's swap function only ----------------------
+    x9 = rep.rule('X9', 'a raw-array routine that is given a swap function moves elements only by calling it', floor=3)
+    SWAP_FTY = 'void (i8*, i8*, i8*, i64)'
+    amod = m.plain.get('array')
+    takers = [f for f in fns if [k for k, a_ in enumerate(f.args) if (a_.get('ty') or '').replace(' ', '') == (SWAP_FTY + '*').replace(' ', '')]]
+    # ... nor through a private helper they call that was not handed the function
+    from ..hashmodel import callgraph, reach
+    cg = callgraph(amod) if amod is not None else {}
+    family = {}
+    for f in takers:
+        family[f.name] = f
+        for nm in reach(cg, f.name):
+            g = amod.fn(nm) if amod is not None else None
+            if g is not None and not g.decl and g.linkage == 'internal' and (g.file or '').endswith('array.c'):
+                family.setdefault(nm, g)
+    for f in [family[k] for k in sorted(family)]:
+        direct = [c for c in f.all_insts() if c.op == 'call' and (c.callee == 'cstl_swap' or (c.callee or '').startswith(('llvm.memcpy', 'llvm.memmove')))]
+        if direct:
+            x9.violation(f.name, 'elements are exchanged with %s at %s although the caller supplied its own swap function: a caller that keeps '
+                         'satellite data in step through that function (or ignores the scratch space) sees them come apart'
+                         % (direct[0].callee, direct[0].loc()), floc(m, f), {})
+        else:
+            x9.ok(f.name, 'no exchange other than through the swap parameter', floc(m, f))
 
     x4 = rep.rule('X4', 'linear find returns the first index whose element compares equal, else -1', floor=1)
     f = m.pfn('cstl_raw_array_find')
